@@ -43,10 +43,17 @@ pub struct RunCtx {
     /// passes that examined >= 200 candidates and were followed by another pass: cut by the memory hint
     pub cut_batches: AtomicU64,
     pub last_ordinal: AtomicU64,
+    /// liveness of the run as a whole (simulator ticks + harness-side checking work): what the watchdog watches
+    pub heartbeat: AtomicU64,
 }
 
 impl RunCtx {
+    pub fn beat(&self) {
+        self.heartbeat.fetch_add(1, Ordering::Relaxed);
+    }
+
     pub fn tick(&self, kind: &str) -> u64 {
+        self.heartbeat.fetch_add(1, Ordering::Relaxed);
         let t = self.ticks.fetch_add(1, Ordering::SeqCst);
         // only threads bound to a simulated entity (or the sole executor thread) produce observable events
         if let Some(o) = self.observer.read().unwrap().clone() {
